@@ -36,12 +36,18 @@ def _bytes_const(node):
 
 
 def check(ctx):
-    _validators(ctx)
-    _headers_store(ctx)
-    _write_headers(ctx)
-    _write_to(ctx)
-    _chunked(ctx)
-    _length(ctx)
+    with ctx.section("validators"):
+        _validators(ctx)
+    with ctx.section("headers-store"):
+        _headers_store(ctx)
+    with ctx.section("write-headers"):
+        _write_headers(ctx)
+    with ctx.section("write-to"):
+        _write_to(ctx)
+    with ctx.section("chunked"):
+        _chunked(ctx)
+    with ctx.section("length"):
+        _length(ctx)
 
 
 # ---- (a) validators -----------------------------------------------------------------------------
